@@ -151,3 +151,44 @@ Definition from_array_ok (m o : option (sptenmat Z)) (A : dense Z) : bool :=
   | None, None => true
   | _, _ => false
   end.
+
+(* ---------------------------------------------------------------- third wave (Model/C01W3.v) *)
+From PV Require Import Model.C01W3.
+Definition zstm_ctor_nocopy := @stm_ctor_nocopy Z.
+(* sptenmat(..., copy=False): accept / reject as the guards predict; the stored triples are the arguments as given;
+   to_sptensor and full give the model's objects (raw) *)
+Definition stm_nocopy_ok (m o : option (sptenmat Z)) (back : option (sparse Z)) (fl : option (tenmat Z)) : bool :=
+  match m, o with
+  | None, None => true
+  | Some a, Some b =>
+      stm_raw_eqb a b &&
+      match back, fl with
+      | Some Sp, Some F => sp_raw_eqb (sptenmat_to_sptensor a) Sp && tm_eqb (sptenmat_full 0%Z a) F
+      | _, _ => false
+      end
+  | _, _ => false
+  end.
+(* to_sptenmat of a sparse tensor that may store zeros: stored triples as the transliterated constructor gives them
+   (sorted, summed, zeros dropped), well-formed, reported shape, and the same array at every position *)
+Definition stm_z_ok (ms : option (sptenmat Z)) (b : sptenmat Z) (S : sparse Z) (oshape : list nat) : bool :=
+  opt_eqb stm_raw_eqb ms (Some b) && ssortedb (stm_subs b) && wf_spb zisz (stm_sp b) && nvec_eqb oshape (stm_shape b) &&
+  all_subs_ok (sshape S) (zden_stm b) (zden_sp S).
+(* the stored entries of A are those of B (subscripts distinct) *)
+Definition sp_perm_eqb (A B : sparse Z) : bool :=
+  nvec_eqb (sshape A) (sshape B) && Nat.eqb (length (ssubs A)) (length (ssubs B)) &&
+  Nat.eqb (length (svals A)) (length (svals B)) &&
+  forallb (fun e => existsb (fun f => nvec_eqb (fst e) (fst f) && Z.eqb (snd e) (snd f)) (combine (ssubs B) (svals B)))
+          (combine (ssubs A) (svals A)).
+(* large extents: no enumeration of positions — the triples against the model in stored order, and the way back *)
+Definition stm_big_ok (ms : option (sptenmat Z)) (b : sptenmat Z) (oshape : list nat) (S back : sparse Z) : bool :=
+  opt_eqb stm_raw_eqb ms (Some b) && ssortedb (stm_subs b) && nvec_eqb oshape (stm_shape b) &&
+  sp_raw_eqb (sptenmat_to_sptensor b) back && sp_perm_eqb S back.
+(* ttensor.full with a sparse core as the code runs it *)
+Definition zt_full_spcore := ttensor_full_spcore 0%Z Z.add Z.mul zisz.
+Definition tfull_sp_ok (G : sparse Z) (Us : list (list (list Z))) (o : option (dense Z)) : bool :=
+  opt_eqb dense_eqb (zt_full_spcore G Us) o.
+(* ktensor.to_tenmat / double as the code composes them *)
+Definition zk_to_tenmat := ktensor_to_tenmat 0%Z Z.add Z.mul.
+Definition zk_double := ktensor_double 0%Z Z.add Z.mul.
+Definition zt_double := ttensor_double 0%Z Z.add Z.mul.
+Definition zsum_double := sum_double 0%Z 1%Z Z.add Z.mul.
